@@ -437,6 +437,82 @@ def char_units(ctx, rng, n):
                                                                         "workload": "char-units"})
 
 
+def width_twins(ctx, rng, n):
+    """Several structures on ONE cstruct object that differ in nothing but the widths of their bit-fields (same member
+    names, storage types and offsets): each is sliced by its own widths, in whatever order they are declared and used,
+    by both readers and by the writer."""
+    sizes = {"uint8": 1, "uint16": 2, "uint32": 4, "int16": 2, "uint64": 8, "int8": 1}
+
+    def split(total, k):
+        cuts = sorted(rng.sample(range(1, total), k - 1)) if k > 1 else []
+        return [b - a for a, b in zip([0] + cuts, cuts + [total])]
+
+    for it in range(n):
+        st = rng.choice(list(sizes))
+        total = sizes[st] * 8
+        k = rng.randint(2, min(4, total - 1))
+        used = rng.choice([total, total, rng.randint(k, total)])
+        comps = []
+        for _ in range(40):
+            ws = split(used, k)
+            if ws not in comps:
+                comps.append(ws)
+            if len(comps) == 3:
+                break
+        if len(comps) < 2:
+            continue
+        lead = rng.random() < 0.5
+        texts = []
+        for j, ws in enumerate(comps):
+            texts.append(f"struct W{j} {{ " + ("uint8 lead; " if lead else "") + " ".join(f"{st} b{i} : {w};" for i, w in enumerate(ws)) + " uint16 tail; };")
+        size = (1 if lead else 0) + sizes[st] + 2
+        for endian in "<>":
+            for compiled in (True, False):
+                one_load = rng.random() < 0.5
+                det = {"texts": texts, "endian": endian, "compiled": compiled, "one_load": one_load, "workload": "width-twins"}
+                ctx.evaluation(("width-twins", tuple(texts), endian, compiled, one_load))
+                ctx.cell(f"width-twins:{'compiled' if compiled else 'interpreted'}")
+                try:
+                    cs = lib.cstruct(endian=endian)
+                    if one_load:
+                        cs.load("\n".join(texts), compiled=compiled)
+                    else:
+                        for t in texts:
+                            cs.load(t, compiled=compiled)
+                    order = list(range(len(comps)))
+                    rng.shuffle(order)
+                    bad = None
+                    for j in order + order:
+                        T, ws = getattr(cs, f"W{j}"), comps[j]
+                        data = bytes(rng.randrange(256) for _ in range(size))
+                        uo = 1 if lead else 0
+                        unit = int.from_bytes(data[uo:uo + sizes[st]], "little" if endian == "<" else "big")
+                        want, pos = [], 0
+                        for w in ws:
+                            shift = pos if endian == "<" else total - pos - w
+                            want.append((unit >> shift) & ((1 << w) - 1))   # in [0, 2^w) whatever the storage type
+                            pos += w
+                        o = T(data)
+                        got = [int(getattr(o, f"b{i}")) for i in range(len(ws))]
+                        if got != want or len(T) != size:
+                            bad = ("values", j, data.hex(), got, want)
+                            break
+                        d = o.dumps()
+                        if len(d) != size or (used == total and d != data):
+                            bad = ("dump", j, data.hex(), d.hex())
+                            break
+                        if bool(T.__compiled__) != compiled:
+                            bad = ("compiled-flag", j, T.__compiled__)
+                            break
+                except Exception as e:  # noqa: BLE001
+                    ctx.violation("width-twins", f"width-twins-raise:{type(e).__name__}", dict(det, error=lib.exc_sig(e)))
+                    continue
+                if bad:
+                    ctx.violation("width-twins", "structure-sliced-by-the-widths-of-another-one", dict(det, problem=repr(bad)))
+                else:
+                    ctx.event("width_twins_checked")
+
+
 def single_and_enum_forms(ctx, rng, n):
     """(a) A structure whose only member is a bit-field, for every storage type: every input kind gives the same,
     in-range value, the default-constructed structure equals the parse of zero bytes and dumps as zeros.
@@ -623,6 +699,8 @@ def run(ctx):
         char_units(ctx, ctx.rng("char-units"), 10 if not ctx.thorough else 200)
         if ctx.shard == 0:
             union_bits(ctx, ctx.rng("union-bits"))
+        if ctx.shard % 4 == 1:
+            width_twins(ctx, ctx.rng("width-twins"), 10 if not ctx.thorough else 150)
         if ctx.shard % 4 == 2:
             single_and_enum_forms(ctx, ctx.rng("single-forms"), 6 if not ctx.thorough else 120)
         if ctx.shard % 4 == 3:
@@ -652,6 +730,10 @@ def replay(ctx, detail):
     if detail.get("workload") == "union-bits":
         import random
         union_bits(ctx, random.Random(0))
+        return
+    if detail.get("workload") == "width-twins":
+        print(detail)
+        width_twins(ctx, ctx.rng("width-twins"), 150)
         return
     if detail.get("workload") == "single-forms":
         print(detail)
